@@ -40,6 +40,7 @@ import (
 	localunlocker "github.com/attestantio/dirk/services/unlocker/local"
 	"github.com/attestantio/dirk/services/walletmanager"
 	standardwalletmanager "github.com/attestantio/dirk/services/walletmanager/standard"
+	"github.com/attestantio/dirk/util/verifhook"
 	"github.com/google/uuid"
 	"github.com/rs/zerolog"
 	e2types "github.com/wealdtech/go-eth2-types/v2"
@@ -263,7 +264,7 @@ type SignerOpts struct {
 	AcctPasses  []string
 	// GenPass (optional) is the instance's own generation passphrase (default "pass").
 	GenPass string
-	Wrap        Wrap
+	Wrap    Wrap
 	// Full also builds lister, account manager, wallet manager and a single-instance process service.
 	Full bool
 	// DistWallets are created as distributed wallets.
@@ -274,6 +275,8 @@ type SignerOpts struct {
 	Sender     sender.Service
 	PeersWrap  func(peers.Service) peers.Service
 	GenTimeout time.Duration
+	// PointStore: see ClusterOpts.PointStore.
+	PointStore bool
 	// Populate is called after the wallets were created and before the account cache is built.
 	Populate func(ctx context.Context, store e2wtypes.Store, enc e2wtypes.Encryptor) error
 }
@@ -324,6 +327,9 @@ func NewSignerRig(o SignerOpts) (*SignerRig, error) {
 		o.Wallets = []string{"Wallet 1"}
 	}
 	r.WStore = scratch.New()
+	if o.PointStore {
+		r.WStore = &pointStore{Store: r.WStore}
+	}
 	enc := PlainEncryptor{}
 	r.Wallets = map[string]e2wtypes.Wallet{}
 	for _, w := range o.Wallets {
@@ -596,4 +602,46 @@ func (r *SignerRig) PropRecord(pub []byte) (bool, int64, []byte) {
 		return true, int64(binary.LittleEndian.Uint64(v[1:9])), v
 	}
 	return true, -2, v
+}
+
+// pointStore marks every wallet-store operation as an instrumentation point (see ClusterOpts.PointStore).
+type pointStore struct {
+	e2wtypes.Store
+}
+
+func (p *pointStore) point(op string) { _ = verifhook.Point(context.Background(), "wstore."+op) }
+
+func (p *pointStore) StoreWallet(id uuid.UUID, name string, data []byte) error {
+	p.point("storewallet")
+	return p.Store.StoreWallet(id, name, data)
+}
+
+func (p *pointStore) RetrieveWallet(name string) ([]byte, error) {
+	p.point("retrievewallet")
+	return p.Store.RetrieveWallet(name)
+}
+
+func (p *pointStore) RetrieveWalletByID(id uuid.UUID) ([]byte, error) {
+	p.point("retrievewalletbyid")
+	return p.Store.RetrieveWalletByID(id)
+}
+
+func (p *pointStore) StoreAccount(walletID uuid.UUID, accountID uuid.UUID, data []byte) error {
+	p.point("storeaccount")
+	return p.Store.StoreAccount(walletID, accountID, data)
+}
+
+func (p *pointStore) RetrieveAccount(walletID uuid.UUID, accountID uuid.UUID) ([]byte, error) {
+	p.point("retrieveaccount")
+	return p.Store.RetrieveAccount(walletID, accountID)
+}
+
+func (p *pointStore) StoreAccountsIndex(walletID uuid.UUID, data []byte) error {
+	p.point("storeindex")
+	return p.Store.StoreAccountsIndex(walletID, data)
+}
+
+func (p *pointStore) RetrieveAccountsIndex(walletID uuid.UUID) ([]byte, error) {
+	p.point("retrieveindex")
+	return p.Store.RetrieveAccountsIndex(walletID)
 }
